@@ -66,7 +66,7 @@ def gen_case(seed: int, idx: int) -> dict[str, Any]:
 
 
 def gen_cases(tier: str, seed: int) -> list[dict[str, Any]]:
-    n = 96 if tier == "quick" else 4000
+    n = 96 if tier == "quick" else 25000
     return [gen_case(seed, i) for i in range(n)]
 
 
